@@ -3,6 +3,7 @@ import FxVerif.Proofs.C04EscStep
 import FxVerif.Proofs.C04Wd
 import FxVerif.Proofs.C04Claims
 import FxVerif.Proofs.C04Ibc
+import FxVerif.Proofs.C04Back
 import FxVerif.Gen.C04
 /-!
 # C04 — bridge solvency: holdings + in-flight = initial + deposits − executed withdrawals; operations move only what
@@ -683,6 +684,53 @@ example :
         s.s2.base.L.bal (.base 5) T = 0 ∧ s.s2.base.L.supply (voucher 5) = 1) &&
       (match step3 cfgI s (.ibc (.toIbc 5 1 2)) with | .error .insufficient => true | _ => false) &&
       (match step3 cfgI s (.ibc (.toIbc 5 1 1)) with | .ok _ => true | _ => false)) = true := by decide
+
+/-! ### module-owned tokens: every base coin is backed by an escrowed alias -/
+
+/-- aliases of group `g` escrowed on fxcore: the bridge denominations in the three chain module accounts and in the erc20
+module account (the older conversion system's escrow, also used by bridge-call refunds), and the IBC vouchers parked in
+the ibc-transfer module account -/
+def escrowed (L : Ledger) (g : Nat) : Nat :=
+  L.bal (.bridge g 0) (M 0) + L.bal (.bridge g 1) (M 1) + L.bal (.bridge g 2) (M 2) +
+  L.bal (.bridge g 0) E + L.bal (.bridge g 1) E + L.bal (.bridge g 2) E + L.bal (voucher g) T
+
+/-- **solvency of module-owned tokens on the fxcore side**: for every configuration, initial ledger, and history of the
+IBC layer (all 19 base operations on every chain, parked claims executed by anybody with re-entrant contracts, packets
+received and sent, voucher ↔ base conversions, deposits routed on to IBC), for every MODULE-OWNED group:
+`supply(base coin) − escrowed aliases` never changes.  In particular, starting from a ledger where the two are equal
+(e.g. nothing issued yet), in every reachable state every base coin in existence — held as coin or ERC-20 by anybody,
+queued, batched or in a bridge call — is backed one-to-one by a bridge denomination or voucher escrowed in a module
+account.  (`escrow_exact` is the corresponding statement for locking tokens.)  WHICH account holds the escrow is what
+decides withdrawability through a given route: `moduleOwned_send_iff`. -/
+theorem moduleOwned_backing (cfg : Cfg) (L : Ledger) (e0 : Nat → Nat → Nat) (ops : List Op3) (g : Nat)
+    (hk : cfg.kind g = some .moduleOwned) :
+    ((runOps3 cfg (init3 (initE L e0)) ops).s2.base.L.supply (.base g) : Int)
+        - escrowed (runOps3 cfg (init3 (initE L e0)) ops).s2.base.L g =
+      (L.supply (.base g) : Int) - escrowed L g := by
+  have h := runOps3_back cfg g hk ops (init3 (initE L e0))
+  have h5 : (init3 (initE L e0)).s2.base.L = L := rfl
+  rw [h5] at h
+  simp only [backObs, escrowedObs, Obs.add, Obs.neg, Obs.sum, Obs.zero, supplyObs, balObs] at h
+  simp only [escrowed]
+  omega
+
+/-- … so with nothing issued initially, supply and escrow are equal for ever -/
+theorem moduleOwned_fully_backed (cfg : Cfg) (L : Ledger) (e0 : Nat → Nat → Nat) (ops : List Op3) (g : Nat)
+    (hk : cfg.kind g = some .moduleOwned) (h0 : L.supply (.base g) = escrowed L g) :
+    (runOps3 cfg (init3 (initE L e0)) ops).s2.base.L.supply (.base g) =
+      escrowed (runOps3 cfg (init3 (initE L e0)) ops).s2.base.L g := by
+  have := moduleOwned_backing cfg L e0 ops g hk
+  omega
+
+/-- non-vacuity: the history of the IBC example issues 10 + 6 + 5 − 4 − 5 base coins backed by 1 parked voucher and 11
+escrowed bridge coins; a refunded bridge call moves escrow into the erc20 module account and the equation still holds -/
+example :
+    let s := runOps3 cfgI (init3 (init ledgerI))
+      [.ibc (.recv 5 0 10), .ibc (.toBase 5 0 3 false), .ibc (.toBase 5 0 7 true), .claim (.observe 1 1 (.deposit 5 1 6 false)),
+       .claim (.exec 1 1), .ibc (.toIbc 5 1 4), .ibc (.xfer 5 1 4), .depositIbc 1 5 2 5,
+       .claim (.base (.bcout 1 1 1 [(5, 2)] false)), .claim (.observe 1 2 (.result 1 false)), .claim (.exec 1 2)]
+    decide (s.s2.base.L.supply (.base 5) = 12 ∧ escrowed s.s2.base.L 5 = 12 ∧ s.s2.base.L.bal (voucher 5) T = 1 ∧
+      s.s2.base.L.bal (.bridge 5 1) (M 1) = 9 ∧ s.s2.base.L.bal (.bridge 5 1) E = 2) = true := by decide
 
 /-! ### claim layer: observed claims are parked and executed through `executeClaim`, possibly re-entrantly -/
 
